@@ -14,7 +14,7 @@ Inductive hev :=
 | HStarted (c : Z) | HRecv (c : Z) (r : hres) | HSend (c : Z) (e : herr) | HSendHeader (c : Z) (e : herr)
 | HSetHeader (c : Z) (e : herr) | HSetTrailer (c : Z) | HAwaited (c : Z) | HReturn (c : Z).
 Inductive hopk := HoRecv | HoSend (b : Z) | HoSendHeader | HoSetHeader | HoSetTrailer | HoAwait | HoReturn (code : Z).
-Inductive skind := KUser | KH (c : Z) (op : hopk) | KC2S | KS2C | KTick (d : Z) | KPeer | KCli | KHU | KSrvFail.
+Inductive skind := KUser | KH (c : Z) (op : hopk) | KC2S | KS2C | KTick (d : Z) | KPeer | KCli | KHU | KSrvFail | KSBlock.
 
 Record sobs := mkSO {
   so_hev : list hev;            (* handler events of this step *)
@@ -285,13 +285,17 @@ Fixpoint srv_emits_ok (prev : Z) (todo : list step) (c2s s2c : list penv) : bool
 Definition returned_in (so : sobs) : list Z :=
   flat_map (fun e => match e with HReturn c => [c] | _ => [] end) (so_hev so).
 
+(* the trailer is on the wire at the quiescent point that follows the handler's return; in a run with back-pressure
+   on the server's Writes (steps KSBlock) it is on the wire by the end of the run (the scenarios release the
+   back-pressure) *)
 Definition trailer_ok (steps : list step) (c2s s2c : list penv) (ids : list Z) : bool :=
+  let blocked := existsb (fun st => match st_kind st with KSBlock => true | _ => false end) steps in
   forallb (fun st =>
              forallb (fun c =>
                         let i := id_of ids c in
                         let so := st_so st in
                         if so_serve so || (0 <? count_rst i (zfirstn (so_wc so) c2s)) then true
-                        else existsb is_trailer (proj i (zfirstn (so_ws so) s2c)))
+                        else existsb is_trailer (proj i (if blocked then s2c else zfirstn (so_ws so) s2c)))
                      (returned_in (st_so st)))
           steps.
 
